@@ -82,6 +82,8 @@ func moduleSource(c *graphCase, i int) string {
 	b.WriteString("如何" + fnName(n, 1) + "？\n    输出“" + n + "-1”\n")
 	b.WriteString("如何" + fnName(n, 2) + "？\n    令物 = （新建" + clsName(n) + "）\n    输出【（" + fnName(n, 1) + "），物之名】\n")
 	b.WriteString("如何" + fnName(n, 3) + "？\n    输出（新建" + clsName(n) + "）\n")
+	b.WriteString("如何" + fnName(n, 4) + "？\n    " + fnName(n, 1) + " = 5\n    输出“改了”\n")
+	b.WriteString("如何" + fnName(n, 5) + "？\n    " + clsName(n) + " = 5\n    输出“改了”\n")
 	b.WriteString("定义" + clsName(n) + "：\n    其名 = “" + n + "-obj”\n    如何报？\n        输出其名\n")
 	b.WriteString("令局部" + fmt.Sprint(i) + " = 1\n")
 	return b.String()
@@ -427,7 +429,7 @@ func TestRandomGraphs(t *testing.T) {
 					dup = true
 				}
 			}
-			switch rapid.IntRange(0, 12).Draw(t, "probe") {
+			switch rapid.IntRange(0, 14).Draw(t, "probe") {
 			case 0: // assignment to an imported name
 				c.Probe = fnName(m, 1) + " = 5\n"
 				c.Expect = "error"
@@ -504,6 +506,12 @@ func TestRandomGraphs(t *testing.T) {
 						}
 					}
 				}
+			case 11, 12: // a method of the module assigning to a method / type name of its OWN module,
+				// called after the module's body has ended: definitions stay read-only
+				k := 4 + rapid.IntRange(0, 1).Draw(t, "ownkind")
+				c.Probe = "（显示：“own”、（" + fnName(m, k) + "））\n"
+				c.Expect = "error"
+				labels = append(labels, "probe:module-assigns-own-definition")
 			case 9: // an object handed out by an imported method is usable where its type is NOT imported
 				if !dup {
 					c.Select[0][0] = fnName(m, 3)
